@@ -16,8 +16,9 @@ BASES = {
     "CFI_cdesc_t": "struct:cfi_cdesc_t",
 }
 # same size and representation on this target (x86-64 Linux): gfortran prints C_SIZE_T as size_t, C_LONG as long ...
-SAME = [{"long", "ptrdiff_t", "int64", "llong"}, {"ulong", "size_t", "uint64", "ullong"}, {"int", "int32"}, {"uint", "uint32"},
-        {"short", "int16"}, {"schar", "int8", "char"}, {"uchar", "uint8"}]
+# Fortran has no unsigned kinds: C_SIZE_T etc. are signed integers of the same size, gfortran prints them as long.
+SAME = [{"long", "ptrdiff_t", "int64", "llong", "ulong", "size_t", "uint64", "ullong"}, {"int", "int32", "uint", "uint32"},
+        {"short", "int16", "ushort", "uint16"}, {"schar", "int8", "char", "uchar", "uint8"}]
 
 
 def split_top(s, sep=","):
@@ -109,10 +110,13 @@ def parse_protos(text, typedefs, structs):
     text = strip_comments(text)
     text = re.sub(r"^\s*#.*$", "", text, flags=re.M)
     out = {}
-    for m in re.finditer(r"([\w\s\*:<>]+?)\b(\w+)\s*\(([^;{}]*)\)\s*;", text):
+    for m in re.finditer(r"([\w\s\*:<>]+?)\b(\w+)\s*\(([^;{}]*)\)\s*(?:;|\{)", text):
         ret, name, params = m.group(1).strip(), m.group(2), m.group(3)
-        if not ret or ret.split()[0] in ("typedef", "return", "else", "if", "while") or "=" in ret:
+        if not ret or ret.split()[0] in ("typedef", "return", "else", "if", "while", "switch", "for", "case", "new", "delete") or "=" in ret \
+                or name in ("if", "while", "switch", "for", "sizeof", "return", "defined"):
             continue
+        if name in out and m.group(0).rstrip().endswith("{"):
+            continue         # keep the declaration when both exist
         ps = []
         for p in split_top(params):
             t = parse_type(p, typedefs, structs)
@@ -146,7 +150,27 @@ def same_base(a, b):
     return any(a in s and b in s for s in SAME)
 
 
-def compatible(c, f):
+LAYOUTS = {}     # struct name (lower) -> field list, filled by compare()
+
+
+def same_struct(a, b, depth=0):
+    """struct types are interoperable when their members agree in order, count and type (names may differ:
+    the C side uses a per-class capsule struct, the Fortran side the shared capsule derived type)."""
+    if a == b:
+        return True
+    fa, fb = LAYOUTS.get(a), LAYOUTS.get(b)
+    if fa is None or fb is None:
+        return None
+    if len(fa) != len(fb) or depth > 4:
+        return False
+    for (t1, _), (t2, _) in zip(fa, fb):
+        r = compatible(t1, t2, depth + 1)
+        if r is not True:
+            return r
+    return True
+
+
+def compatible(c, f, depth=0):
     """c: type from the C header, f: type gfortran derived from the Fortran interface."""
     if c is None or f is None:
         return c is None and f is None
@@ -162,11 +186,15 @@ def compatible(c, f):
         if cp != fp:
             # T** on the C side is declared type(C_PTR) (by reference or value) on the Fortran side
             return fb == "void"
-        return same_base(cb, fb) or (cb.startswith("struct:") and fb.startswith("struct:") and strip_prefix(cb) == strip_prefix(fb))
+        if cb.startswith("struct:") and fb.startswith("struct:"):
+            return same_struct(strip_prefix(cb), strip_prefix(fb), depth)
+        if cb == "struct:cfi_cdesc_t" or fb == "struct:cfi_cdesc_t":
+            return None      # gfortran 12 -fc-prototypes does not print descriptor arguments as CFI_cdesc_t
+        return same_base(cb, fb)
     if cp != fp:
         return False
     if cb.startswith("struct:") and fb.startswith("struct:"):
-        return strip_prefix(cb) == strip_prefix(fb)
+        return same_struct(strip_prefix(cb), strip_prefix(fb), depth)
     return same_base(cb, fb)
 
 
@@ -188,6 +216,15 @@ def compare(fproto_text, header_texts):
         cstructs.update(parse_structs(t, typedefs, structs))
     fprotos = parse_protos(fproto_text, typedefs, structs)
     fstructs = parse_structs(fproto_text, typedefs, structs)
+    LAYOUTS.clear()
+    LAYOUTS.update(cstructs)
+    for k, v in fstructs.items():
+        LAYOUTS.setdefault(k, v)
+    # typedef struct s_X X;  -> layout of s_X
+    for t in header_texts:
+        for m in re.finditer(r"typedef\s+struct\s+(\w+)\s+(\w+)\s*;", strip_comments(t)):
+            if m.group(1).lower() in LAYOUTS:
+                LAYOUTS.setdefault(m.group(2).lower(), LAYOUTS[m.group(1).lower()])
     mism, unbound = [], []
     checked = undec = 0
     for name, (fret, fps, ftext) in fprotos.items():
